@@ -627,4 +627,19 @@ example : (⟨10, 1028443341, 3, 13, [⟨10, 1028443341, 3, 13, [0xff, 0x1f], 10
       : Expanding).exportBytes =
     .ok (Spec.expandingFile [(10, [0xff, 0x1f]), (1, [1, 0])] 10 11 1028443341) := by rfl
 
+/-! ### the geometry a C reader re-derives from the footer
+
+    The documented C library derives `(number_hashes, number_bits)` from the footer's
+    `(estimated_elements, false_positive_rate)` with the double literals `0.4804530139182` (ln²2,
+    truncated) and `0.6931471805599453`.  The reference readers above take `(k, m)` as inputs; this
+    obligation closes the gap on the Lean side: the constants the Python source sizes with — extracted
+    from the source on every run, evaluating constant expressions such as `math.log(2.0) ** 2` — ARE the
+    documented doubles, bit for bit.  (Any other value changes some geometry, e.g. `math.log(2.0)**2`
+    gives 19332643 instead of 19332644 bits at est = 2648873, p = 0.03; the search then looks for such a
+    geometry with a directed scan.) -/
+theorem C06_sizing_constants_documented :
+    Gen.bloomLn2SqBits = 4602326691975710069 ∧   -- the double 0.4804530139182
+    Gen.bloomLn2Bits = 4604418534313441775 :=    -- the double 0.6931471805599453
+  ⟨rfl, rfl⟩
+
 end PyProb.C06
